@@ -51,9 +51,9 @@ type PipeCase struct {
 }
 
 type CmpRec struct {
-	T1, C, T2 int
-	Same      bool
-	Err       string
+	T1, C, T2  int
+	Same       bool
+	Err        string
 	W1, WC, W2 []float64
 }
 
